@@ -88,7 +88,11 @@ def build_pool(ctx, n_real, n_synth):
             # a Table D sequence containing 102002 / 102003, and a template using the same replication
             # descriptor with other members (replication descriptors must not be shared objects)
             ('alias2-a', [302040, 12001], True), ('alias2-b', [102002, 12001, 7001, 1001], True),
-            ('alias3-a', [302047, 12001], True), ('alias3-b', [102003, 12001, 7001, 1001], True)]:
+            ('alias3-a', [302047, 12001], True), ('alias3-b', [102003, 12001, 7001, 1001], True),
+            # outer replications that agree on id, factor and direct member ids while an INNER replication differs
+            ('nest1-a', [1001, 103000, 31001, 7004, 101002, 11001], True), ('nest1-b', [1001, 103000, 31001, 7004, 101002, 11002], True),
+            ('nest2-a', [103002, 7004, 101002, 11001, 12001], True), ('nest2-b', [103002, 7004, 101002, 12101, 12001], True),
+            ('nest3-a', [102000, 31001, 101003, 2001], True), ('nest3-b', [102000, 31001, 101003, 12001], True)]:
         damaged.append({'id': 'r:' + name, 'hex': O.mk_message(ids, 64, 33, pattern=pat).hex(), 'kind': 'register'})
     # the SAME descriptor list under different master table versions, over elements whose Table B
     # entry differs between the versions (a compiled template must not be shared across table groups)
